@@ -71,6 +71,7 @@ def make_fake():
         """Concrete hardware whose next calls succeed / fail as scripted by the current op."""
 
         def __init__(self) -> None:
+            self.verif_connected = False      # the fake's own connection flag (see `is_connected`)
             super().__init__()
             self.regs: dict[tuple[int, str], Register] = {}
             self.mem: dict[str, Any] = {}
@@ -148,10 +149,15 @@ def make_fake():
                 self.reconn = bool(self.connect_ok)
             if not self.connect_ok:
                 raise HardwareLayerException("scripted connect failure")
-            self._is_connected = True
+            self.verif_connected = True
 
         def disconnect(self):
-            self._is_connected = False
+            self.verif_connected = False
+
+        @property
+        def is_connected(self) -> bool:
+            # public surface only: nothing here depends on how HardwareLayerBase stores its connection flag
+            return self.verif_connected
 
     return ScriptHW()
 
@@ -170,7 +176,7 @@ class Impl:
         self.clock = Clock()
         self.full = f[7] == "full"
         self.hw = make_fake()
-        self.hw._is_connected = f[1] == "1"
+        self.hw.verif_connected = f[1] == "1"
         cfg = hr.ErrorRecoveryConfig()
         cfg.reconnect_timeout_seconds = int(f[2]) / 8.0
         cfg.error_timeout_seconds = int(f[3]) / 8.0
